@@ -193,7 +193,11 @@ func runC20(c *Ctx) {
 			}
 			// the fold only decreases: a.Hdr.Ttl flows into ttl only behind (a.Hdr.Ttl < ttl)
 			lt := OnCmp("a.Hdr.Ttl<ttl", FieldIs(hdrTTL), token.LSS, func(e *Expr) bool { return e.K == EPhi || e.K == EAlloc || CallTo(negTTL)(e) || IsAnyConst(e) }, true)
-			if pts := edgePoints(fn, lt); len(pts) == 0 {
+			var pts []Point
+			for _, f := range scopeFuncs(fn) { // the fold may live in an extracted helper
+				pts = append(pts, edgePoints(f, lt)...)
+			}
+			if len(pts) == 0 {
 				c.violation("C20-R4", "C20-R4|synthesise|min-fold guard", fn.Pos(), "no 'a.Hdr.Ttl < ttl' guard: the synthesised TTL is no longer the minimum of the A TTLs and the negative TTL")
 			} else {
 				c.ok("C20-R4", "C20-R4|synthesise|min-fold guard", fn.Pos(), "A TTL lowers ttl only behind a.Hdr.Ttl < ttl")
@@ -228,25 +232,39 @@ func runC20(c *Ctx) {
 			c.OriginCheck("C20-R5", "C20-R5|handlePTR|translated address origin", in, "inAddrArpa argument", callArg(in, 0), nil, ResultOf(0, ext), IsNilConst)
 		}
 		nfeed := 0
-		for _, b := range fn.Blocks {
-			for _, in := range b.Instrs {
-				ph, ok := in.(*ssa.Phi)
-				if !ok {
-					continue
+		checkSel := func(term ssa.Instruction, f *ssa.Function) {
+			nfeed++
+			for _, bar := range []Barrier{OnFalse("shouldExcludeAOnPrefix", excl), OnTrue("extractIPv4 ok", ResultOf(1, ext))} {
+				key := "C20-R5|handlePTR|v4 = ext|" + bar.Name
+				if ug, tr := c.unguarded(term, []Barrier{bar}, f); ug {
+					c.violation("C20-R5", key, instrPos(term), "an extracted IPv4 is selected for PTR translation without crossing "+bar.Name+"; path "+tr)
+				} else {
+					c.ok("C20-R5", key, instrPos(term), "selection of the extracted address is behind "+bar.Name)
 				}
-				for i, ev := range ph.Edges {
-					if !ResultOf(0, ext)(Desc(ev)) {
-						continue
-					}
-					pred := b.Preds[i]
-					term := pred.Instrs[len(pred.Instrs)-1]
-					nfeed++
-					for _, bar := range []Barrier{OnFalse("shouldExcludeAOnPrefix", excl), OnTrue("extractIPv4 ok", ResultOf(1, ext))} {
-						key := "C20-R5|handlePTR|v4 = ext|" + bar.Name
-						if ug, tr := c.unguarded(term, []Barrier{bar}, fn); ug {
-							c.violation("C20-R5", key, instrPos(term), "an extracted IPv4 is selected for PTR translation without crossing "+bar.Name+"; path "+tr)
-						} else {
-							c.ok("C20-R5", key, instrPos(term), "selection of the extracted address is behind "+bar.Name)
+			}
+		}
+		// selection points: phi edges carrying an extractIPv4 result, and — when the search
+		// loop was extracted into a helper — the helper's returns of such a result
+		for _, f := range scopeFuncs(fn) {
+			for _, b := range f.Blocks {
+				for _, in := range b.Instrs {
+					switch x := in.(type) {
+					case *ssa.Phi:
+						for i, ev := range x.Edges {
+							if !ResultOf(0, ext)(Desc(ev)) {
+								continue
+							}
+							pred := b.Preds[i]
+							checkSel(pred.Instrs[len(pred.Instrs)-1], TopLevel(f))
+						}
+					case *ssa.Return:
+						if TopLevel(f) == fn {
+							continue
+						}
+						for _, rv := range x.Results {
+							if ResultOf(0, ext)(Desc(rv)) {
+								checkSel(in, TopLevel(f))
+							}
 						}
 					}
 				}
